@@ -18,7 +18,7 @@ META = dict(
     property="C57",
     level="exploration",
     technique="Hypothesis-generated observer sets / event streams / level configurations / buffer sizes against reference models (recursive fan-out with failure reports; explicit dotted-prefix walk; list slicing), plus complete enumeration of the level-for-namespace function over a small universe",
-    level_text="pub: up to 5 observers, each raising on a chosen set of event numbers and optionally on failure reports, up to 8 operations (emit / addObserver / removeObserver, and add/remove performed by an observer during a delivery); every observer's received sequence (events and nested failure reports, with the reported observer and exception) is compared with the model. filter: all namespaces over segments {a,b,ab} up to depth 3 plus odd dotted forms, 0-4 configuration steps (set / clear / invalid level), all five levels; complete enumeration for single and double configurations, random beyond. hist: sizes 0..6 and None, up to 12 appends interleaved with replays. Sampled except where stated.",
+    level_text="pub: up to 5 observers, each raising on a chosen set of event numbers and optionally on failure reports, up to 8 operations (emit / addObserver / removeObserver, and add/remove performed by an observer during a delivery); every observer's received sequence (events and nested failure reports, with the reported observer and exception) is compared with the model. filter: all namespaces over segments {a,b,ab} up to depth 3 plus odd dotted forms, histories of up to 12 steps in which configuration steps (set / clear / change of defaultLogLevel / invalid level) and events are interleaved, so that namespaces are looked up again after every kind of reconfiguration, all five levels; complete enumeration for single and double configurations and for 'configure, look up every namespace, reconfigure, look up every namespace again', random beyond. hist: sizes 0..6 and None, up to 12 appends interleaved with replays. Sampled except where stated.",
     level_note="Models written from the class and method docstrings. For add/remove during a delivery only observers registered before and after the whole delivery are required to see the event (exactly once, in registration order); the others at most once. Observers raise Exception subclasses only. Ordering of failure reports relative to later events is compared exactly as the natural reading (reports follow the fan-out of the event that caused them).",
     design_ref="§5 C57",
     rule="pub: non-trivial = at least 2 observers registered at some emit and (some observer raised, or the observer set changed between/during deliveries); filter: at least one configured namespace and an event whose namespace has a configured proper dotted prefix or a non-dotted look-alike prefix; hist: more appends than the buffer size and at least one replay. Distinct by the whole case.",
@@ -238,7 +238,20 @@ def _run_filter(ctx, case):
     pred = LogLevelFilterPredicate(defaultLogLevel=L[default])
     config = {}
     cur_default = default
-    for step in case["config"]:
+    # one history: configuration steps and events (lookups) interleaved.  Older
+    # cases give the configuration first and the events afterwards.
+    steps = case.get("steps")
+    if steps is None:
+        steps = list(case["config"]) + [["event", ns, lvl] for ns, lvl in case["events"]]
+    passed, dropped = [], []
+    obs = FilteringLogObserver(passed.append, [pred], negativeObserver=dropped.append)
+    interesting = False
+    looked_up = set()        # namespaces looked up before the latest configuration change
+    changed_since = {}       # namespace -> a configuration step happened after its last lookup
+    for step in steps:
+        if step[0] != "event":
+            for k in looked_up:
+                changed_since[k] = True
         if step[0] == "set":
             ns, lvl = step[1], step[2]
             pred.setLogLevelForNamespace(ns, L[lvl])
@@ -250,6 +263,9 @@ def _run_filter(ctx, case):
             pred.clearLogLevels()
             config = {}
             cur_default = default
+        elif step[0] == "default":
+            pred.defaultLogLevel = L[step[1]]      # takes effect at the next clearLogLevels
+            default = step[1]
         elif step[0] == "invalid":
             try:
                 pred.setLogLevelForNamespace(step[1], "not a level")
@@ -257,45 +273,49 @@ def _run_filter(ctx, case):
                 pass
             else:
                 ctx.violation("filter-invalid-level-accepted", case, "setLogLevelForNamespace accepted a non-level")
+        elif step[0] == "event":
+            ns, lvl = step[1], step[2]
+            event = dict(log_format="x")
+            if ns is not None:
+                event["log_namespace"] = ns
+            if lvl is not None:
+                event["log_level"] = L[lvl]
+            stale = ""
+            if lvl is None or not ns:
+                want = False          # documented: events without level or namespace are dropped
+                ctx.count("filter: event without namespace/level")
+            else:
+                if changed_since.pop(ns, False):
+                    ctx.count("filter: namespace looked up again after a configuration change")
+                    stale = "-after-reconfiguration"
+                    interesting = True
+                looked_up.add(ns)
+                need = _ref_level(config, cur_default, ns)
+                want = LEVELS.index(lvl) >= LEVELS.index(need)
+                got_level = pred.logLevelForNamespace(ns)
+                if got_level is not L[need]:
+                    sig = "filter-namespace-level"
+                    if need != cur_default and got_level is L[cur_default]:
+                        sig = "filter-configured-prefix-ignored"
+                    elif need == cur_default:
+                        sig = "filter-unrelated-namespace-matched"
+                    ctx.violation(sig + stale, case, f"logLevelForNamespace({ns!r}) = {got_level!r}, reference {need} (config {config!r}, default {cur_default})")
+                if any(ns != c and (ns.startswith(c + ".") or (ns.startswith(c))) for c in config):
+                    interesting = True
+            res = pred(event)
+            exp_res = PredicateResult.maybe if want else PredicateResult.no
+            if res is not exp_res:
+                ctx.violation("filter-decision-%s" % ("dropped" if want else "passed"), case,
+                              f"event ns={ns!r} level={lvl}: predicate says {res!r}, reference {'pass' if want else 'drop'} (config {config!r}, default {cur_default})")
+            n0, d0 = len(passed), len(dropped)
+            obs(event)
+            if (len(passed) - n0, len(dropped) - d0) != ((1, 0) if want else (0, 1)) or (passed[-1:] if want else dropped[-1:]) != [event]:
+                ctx.violation("filter-observer-forwarding", case, f"event ns={ns!r} level={lvl}: forwarded {len(passed) - n0}x, negative {len(dropped) - d0}x")
+            ctx.count("filter: pass" if want else "filter: drop")
         else:
             raise HarnessError(f"bad step {step!r}")
-    passed, dropped = [], []
-    obs = FilteringLogObserver(passed.append, [pred], negativeObserver=dropped.append)
-    interesting = False
-    for ns, lvl in case["events"]:
-        event = dict(log_format="x")
-        if ns is not None:
-            event["log_namespace"] = ns
-        if lvl is not None:
-            event["log_level"] = L[lvl]
-        if lvl is None or not ns:
-            want = False          # documented: events without level or namespace are dropped
-            ctx.count("filter: event without namespace/level")
-        else:
-            need = _ref_level(config, cur_default, ns)
-            want = LEVELS.index(lvl) >= LEVELS.index(need)
-            got_level = pred.logLevelForNamespace(ns)
-            if got_level is not L[need]:
-                sig = "filter-namespace-level"
-                if need != cur_default and got_level is L[cur_default]:
-                    sig = "filter-configured-prefix-ignored"
-                elif need == cur_default:
-                    sig = "filter-unrelated-namespace-matched"
-                ctx.violation(sig, case, f"logLevelForNamespace({ns!r}) = {got_level!r}, reference {need} (config {config!r}, default {cur_default})")
-            if any(ns != c and (ns.startswith(c + ".") or (ns.startswith(c))) for c in config):
-                interesting = True
-        res = pred(event)
-        exp_res = PredicateResult.maybe if want else PredicateResult.no
-        if res is not exp_res:
-            ctx.violation("filter-decision-%s" % ("dropped" if want else "passed"), case,
-                          f"event ns={ns!r} level={lvl}: predicate says {res!r}, reference {'pass' if want else 'drop'} (config {config!r}, default {cur_default})")
-        n0, d0 = len(passed), len(dropped)
-        obs(event)
-        if (len(passed) - n0, len(dropped) - d0) != ((1, 0) if want else (0, 1)) or (passed[-1:] if want else dropped[-1:]) != [event]:
-            ctx.violation("filter-observer-forwarding", case, f"event ns={ns!r} level={lvl}: forwarded {len(passed) - n0}x, negative {len(dropped) - d0}x")
-        ctx.count("filter: pass" if want else "filter: drop")
     ctx.count("filter cases")
-    if config and interesting:
+    if interesting:
         ctx.nontrivial(("filter", case))
         ctx.count("nontrivial filter")
 
@@ -401,19 +421,20 @@ NAMESPACES = ["a", "b", "ab", "a.b", "a.ab", "a.b.a", "a.b.ab", "ab.a", "b.a.b",
 _ns = st.sampled_from(NAMESPACES)
 _lvl = st.sampled_from(LEVELS)
 
+_cfg_step = st.one_of(
+    st.builds(lambda n, l: ["set", n, l], _ns, _lvl),
+    st.builds(lambda n, l: ["set", n, l], _ns, _lvl),
+    st.builds(lambda n, l: ["set", n, l], _ns, _lvl),
+    st.builds(lambda l: ["set", "", l], _lvl),
+    st.just(["clear"]), st.just(["clear"]),
+    st.builds(lambda l: ["default", l], _lvl),
+    st.builds(lambda n: ["invalid", n], _ns))
+# few namespaces per history, so that the same one is looked up again and again
+_ev_step = st.tuples(st.sampled_from(["a.b", "a.b.a", "a.b.ab", "a", "ab.a", "a.a"] * 3 + NAMESPACES + ["", None]),
+                     st.sampled_from(LEVELS * 6 + [None])).map(lambda t: ["event", t[0], t[1]])
 FILTER = st.builds(
-    lambda default, config, events: dict(kind="filter", default=default, config=config, events=events),
-    _lvl,
-    st.lists(st.one_of(
-        st.builds(lambda n, l: ["set", n, l], _ns, _lvl),
-        st.builds(lambda n, l: ["set", n, l], _ns, _lvl),
-        st.builds(lambda n, l: ["set", n, l], _ns, _lvl),
-        st.builds(lambda l: ["set", "", l], _lvl),
-        st.just(["clear"]),
-        st.builds(lambda n: ["invalid", n], _ns)), min_size=1, max_size=4),
-    st.lists(st.tuples(st.sampled_from(NAMESPACES * 2 + ["", None]),
-                       st.sampled_from(LEVELS * 6 + [None])).map(list), min_size=1, max_size=6),
-)
+    lambda default, steps: dict(kind="filter", default=default, steps=steps),
+    _lvl, st.lists(st.one_of(_cfg_step, _ev_step, _ev_step), min_size=2, max_size=12))
 
 HIST = st.builds(
     lambda size, ops: dict(kind="hist", size=size, ops=ops),
@@ -433,6 +454,11 @@ def _filter_grid():
         for c2 in NAMESPACES[i + 1:]:
             yield dict(kind="filter", default="warn", config=[["set", c1, "debug"], ["set", c2, "error"]],
                        events=[[ns, "info"] for ns in NAMESPACES])
+        # every namespace looked up before and after each kind of reconfiguration
+        look = [["event", ns, "info"] for ns in NAMESPACES]
+        for change in ([["clear"]], [["set", c1, "error"]], [["set", "", "debug"]], [["default", "debug"], ["clear"]],
+                       [["set", NAMESPACES[(i + 1) % len(NAMESPACES)], "error"]]):
+            yield dict(kind="filter", default="warn", steps=[["set", c1, "debug"]] + look + change + look)
 
 
 def _hist_grid():
